@@ -31,10 +31,11 @@ func runC05(c *core.Ctx) {
 			continue
 		}
 		key := core.FuncKey(fn)
+		rg := core.RegionOf(fn)
 		lp := paramOfType(fn, "datamodel", "LinkPrototype")
 		node := paramOfType(fn, "datamodel", "Node")
 		var encCh, hashCh []*ssa.Call
-		for _, ci := range core.Calls(fn) {
+		for _, ci := range core.CallsR(fn) {
 			if cv := core.CallValue(ci); cv != nil {
 				if fieldFuncCall(ci, "LinkSystem", "EncoderChooser") {
 					encCh = append(encCh, cv)
@@ -48,12 +49,12 @@ func runC05(c *core.Ctx) {
 			c.Fail(key+"#choosers", p.Pos(fn.Pos()), fmt.Sprintf("expected exactly one EncoderChooser and one HasherChooser call on the prototype parameter (found %d, %d)", len(encCh), len(hashCh)))
 			continue
 		}
-		c.Check(core.Strip(encCh[0].Call.Args[0]) == ssa.Value(lp), key+"#encoder-from-lp", p.Pos(encCh[0].Pos()), "encoder chosen from the prototype parameter", "EncoderChooser is not asked about the prototype parameter")
-		c.Check(core.Strip(hashCh[0].Call.Args[0]) == ssa.Value(lp), key+"#hasher-from-lp", p.Pos(hashCh[0].Pos()), "hasher chosen from the prototype parameter", "HasherChooser is not asked about the prototype parameter")
+		c.Check(core.SameValue(encCh[0].Call.Args[0], lp), key+"#encoder-from-lp", p.Pos(encCh[0].Pos()), "encoder chosen from the prototype parameter", "EncoderChooser is not asked about the prototype parameter")
+		c.Check(core.SameValue(hashCh[0].Call.Args[0], lp), key+"#hasher-from-lp", p.Pos(hashCh[0].Pos()), "hasher chosen from the prototype parameter", "HasherChooser is not asked about the prototype parameter")
 		isH := func(v ssa.Value) bool { return extractOf(v, hashCh[0], 0) }
 		// hasher never stored to field/global
 		escaped := false
-		core.Instrs(fn, func(in ssa.Instruction) {
+		core.InstrsR(fn, func(in ssa.Instruction) {
 			if st, ok := in.(*ssa.Store); ok && isH(st.Val) {
 				w := p.LocalEffects(fn)
 				_ = w
@@ -65,7 +66,7 @@ func runC05(c *core.Ctx) {
 		c.Check(!escaped, key+"#hasher-per-call", p.Pos(hashCh[0].Pos()), "hasher is local to this activation", "the hasher is stored outside this activation (shared between operations)")
 		// encoder calls
 		var encCalls []*ssa.Call
-		for _, ci := range core.Calls(fn) {
+		for _, ci := range core.CallsR(fn) {
 			cv := core.CallValue(ci)
 			if cv != nil && !cv.Call.IsInvoke() && cv.Call.StaticCallee() == nil && extractOf(cv.Call.Value, encCh[0], 0) {
 				encCalls = append(encCalls, cv)
@@ -76,7 +77,7 @@ func runC05(c *core.Ctx) {
 			continue
 		}
 		ec := encCalls[0]
-		c.Check(node != nil && core.Strip(ec.Call.Args[0]) == ssa.Value(node), key+"#encode-node", p.Pos(ec.Pos()), "the encoder is given the node parameter", "the encoder is not given the node parameter")
+		c.Check(node != nil && core.SameValue(ec.Call.Args[0], node), key+"#encode-node", p.Pos(ec.Pos()), "the encoder is given the node parameter", "the encoder is not given the node parameter")
 		wsl := core.BackSlice(ec.Call.Args[1], core.SliceOpts{Stores: true, ThroughCallsIf: func(cl *ssa.Call) bool { return core.IsPkgFunc(cl, "io", "MultiWriter") }})
 		reaches := false
 		for w := range wsl {
@@ -88,17 +89,17 @@ func runC05(c *core.Ctx) {
 		// link
 		errIdx := core.ErrResultIndex(fn)
 		var builds []*ssa.Call
-		for _, ci := range core.Calls(fn) {
+		for _, ci := range core.CallsR(fn) {
 			if cv := core.CallValue(ci); cv != nil && core.IsMethodNamed(ci, "BuildLink") {
 				builds = append(builds, cv)
 			}
 		}
 		goodBuild := func(v ssa.Value) bool {
-			bl, ok := core.Strip(v).(*ssa.Call)
-			if !ok || !core.IsMethodNamed(bl, "BuildLink") || core.Strip(core.Receiver(bl)) != ssa.Value(lp) {
+			bl, ok := rg.Canon(v).(*ssa.Call)
+			if !ok || !core.IsMethodNamed(bl, "BuildLink") || !core.SameValue(core.Receiver(bl), lp) {
 				return false
 			}
-			sum, ok := core.Strip(core.Args(bl)[0]).(*ssa.Call)
+			sum, ok := rg.Canon(core.Args(bl)[0]).(*ssa.Call)
 			return ok && core.IsMethodNamed(sum, "Sum") && isH(core.Receiver(sum))
 		}
 		for _, ret := range core.Returns(fn) {
@@ -111,21 +112,21 @@ func runC05(c *core.Ctx) {
 			c.Check(ok, key+"#link-derivation", p.Pos(ret.Pos()), "returned link = lp.BuildLink(hasher.Sum(..)) of the same prototype and hasher", "the returned link is not lp.BuildLink(H.Sum()) of the prototype parameter and the hasher the encoder wrote into")
 			// ordering: encode happens before Sum on every path
 			if ok {
-				bl := core.Strip(vals[0]).(*ssa.Call)
-				sum := core.Strip(core.Args(bl)[0]).(*ssa.Call)
+				bl := rg.Canon(vals[0]).(*ssa.Call)
+				sum := rg.Canon(core.Args(bl)[0]).(*ssa.Call)
 				_, r := core.Reach(fn, nil, isTarget(sum), nil, isTarget(ec))
 				c.Check(!r, key+"#encode-before-sum", p.Pos(sum.Pos()), "Sum is taken only after the encoder ran", "hasher.Sum reachable before the encoder has written")
 			}
 		}
 		if name == "Store" {
 			var opener *ssa.Call
-			for _, ci := range core.Calls(fn) {
+			for _, ci := range core.CallsR(fn) {
 				if fieldFuncCall(ci, "LinkSystem", "StorageWriteOpener") {
 					opener = core.CallValue(ci)
 				}
 			}
 			n := 0
-			for _, ci := range core.Calls(fn) {
+			for _, ci := range core.CallsR(fn) {
 				cc := ci.Common()
 				if opener != nil && !cc.IsInvoke() && cc.StaticCallee() == nil && extractOf(cc.Value, opener, 1) {
 					n++
@@ -133,7 +134,7 @@ func runC05(c *core.Ctx) {
 					same := false
 					for _, ret := range core.Returns(fn) {
 						for _, v := range core.ResultValues(ret, 0) {
-							if core.Strip(v) == core.Strip(cc.Args[0]) {
+							if core.SameValue(v, cc.Args[0]) {
 								same = true
 							}
 						}
